@@ -8,7 +8,7 @@ from translate import loc_tr
 from props import loc_common as L
 
 KINDS = [("syntax-garbage", 4), ("syntax-drop", 2), ("unknown", 4), ("unresolvable", 5),
-         ("nonunique-local", 3), ("nonunique-import", 3), ("valid", 1)]
+         ("nonunique-local", 3), ("nonunique-import", 3), ("nonunique-builtin", 2), ("valid", 1)]
 
 
 def gen_case(r, kind=None):
@@ -17,29 +17,31 @@ def gen_case(r, kind=None):
     nfiles = None
     if kind == "nonunique-import":
         nfiles = r.range(2, 4)
-    w = L.gen_world(r, nfiles=nfiles, as_string=as_string)
+    w = L.gen_world(r, nfiles=nfiles, as_string=as_string, builtin=True if kind == "nonunique-builtin" else None)
     files = w["files"]
-    ef = r.below(len(files))               # file receiving the injected error
+    loaded = L.loaded_files(w)
+    ef = r.below(len(loaded))               # file receiving the injected error
     case = {"kind": kind, "sites": []}
-    garbage = drop = None
     ref_file = ef
     if kind == "unknown":
         name = L._name(r, w["used"], "zz")
-        _add_ref(r, files[ef], name)
+        _add_ref(r, files[ef], name, rrel=r.chance(0.25))
         want = [(ef, name)]
     elif kind == "unresolvable":
         want = []
         for i in range(r.weighted([(1, 3), (2, 3), (3, 2)])):
-            fi = r.below(len(files))
+            fi = r.below(len(loaded))
             name = "late%d" % (i + 1) + r.choice(["", "x", "ñ"])
             _add_ref(r, files[fi], name)
             want.append((fi, name))
-    elif kind in ("nonunique-local", "nonunique-import"):
+    elif kind in ("nonunique-local", "nonunique-import", "nonunique-builtin"):
         name = L._name(r, w["used"], "dup")
         if kind == "nonunique-import":
-            importers = [f.ix for f in files if f.imports]
+            importers = [f.ix for f in loaded if f.imports]
             ref_file = r.choice(importers)
             ef = r.choice(files[ref_file].imports)
+        elif kind == "nonunique-builtin":
+            ef = len(files) - 1             # the duplicates live in the builtin model
         for _ in range(r.weighted([(2, 4), (3, 1)])):
             L.insert_item(r, files[ef], {"k": "def", "name": name, "tail": None})
         _add_ref(r, files[ref_file], name)
@@ -55,7 +57,7 @@ def gen_case(r, kind=None):
             g = (r.below(len(f.toks) + 1), r.choice(L.GARBAGE))
         if f.ix == ef and kind == "syntax-drop":
             d = r.choice(f.semis)
-        special[f.ix] = L.layout(r, f, as_string, garbage=g, drop=d)
+        special[f.ix] = L.layout(r, f, as_string and f.name != L.BUILTIN_NAME, garbage=g, drop=d)
     if kind.startswith("syntax"):
         case["sites"] = [{"file": ef, "pos": special[ef]}]
     else:
@@ -65,22 +67,37 @@ def gen_case(r, kind=None):
             case["sites"].append({"file": fi, "pos": files[fi].off[toks[0]], "name": name})
     if kind == "unresolvable":
         # iteration order of the error loop: models in load order, references in textual order
-        order = L.load_order(files)
+        order = L.load_order(loaded)
         case["sites"].sort(key=lambda s: (order.index(s["file"]), s["pos"]))
-    if kind == "nonunique-import":
+    if kind in ("nonunique-import", "nonunique-builtin"):
         case["searched"] = ef
     case["world"] = w
     return case
 
 
-def _add_ref(r, f, name):
+def _add_ref(r, f, name, rrel=False):
     lists = L.all_item_lists(f)
+    if rrel:                                # reference with an RREL scope provider from the grammar
+        L.insert_item(r, f, {"k": "rr", "names": [name]})
+        return
     uses = [x for lst in lists for x in lst if x["k"] == "uses"]
     if uses and r.chance(0.3):
         x = r.choice(uses)
         x["names"].insert(r.below(len(x["names"]) + 1), name)
     else:
         L.insert_item(r, f, {"k": "use", "names": [name]})
+
+
+PEG_FUEL = 200
+
+
+def peg_expr(case, table):
+    """the same syntax error, with the failure offset computed by the interpreter model (Model/Peg.v)
+    from the text, instead of taken from the generator"""
+    import pegdump
+    s = case["sites"][0]
+    return "let fs := %s in show_opt show_rec (load_syntax_error syntax_desc gLOC cLOC (orc_of %s) false %d fs %s)" % (
+        L.coq_fs(case["world"]), pegdump.coq_table(table), PEG_FUEL, L.coq_nat(s["file"]))
 
 
 def coq_case(case):
@@ -97,16 +114,17 @@ def coq_case(case):
     if k == "nonunique-local":
         return "let fs := %s in show_rec (nonunique_error nonunique_desc importuri_relocates fs %s %s %s false)" % (
             fs, L.coq_nat(s[0]["file"]), L.coq_nat(s[0]["file"]), L.coq_nat(s[0]["pos"]))
-    if k == "nonunique-import":
+    if k in ("nonunique-import", "nonunique-builtin"):
         return "let fs := %s in show_rec (nonunique_error nonunique_desc importuri_relocates fs %s %s %s true)" % (
             fs, L.coq_nat(s[0]["file"]), L.coq_nat(case["searched"]), L.coq_nat(s[0]["pos"]))
     return '"Loaded"'
 
 
 ERR_CLASS = {"syntax-garbage": "TextXSyntaxError", "syntax-drop": "TextXSyntaxError", "unknown": "TextXSemanticError",
-             "unresolvable": "TextXSemanticError", "nonunique-local": "TextXSemanticError", "nonunique-import": "TextXSemanticError"}
+             "unresolvable": "TextXSemanticError", "nonunique-local": "TextXSemanticError", "nonunique-import": "TextXSemanticError",
+             "nonunique-builtin": "TextXSemanticError"}
 MSG = {"unknown": "Unknown object", "unresolvable": "Unresolvable cross references", "nonunique-local": "is not unique",
-       "nonunique-import": "is not unique", "syntax-garbage": "Expected", "syntax-drop": "Expected"}
+       "nonunique-import": "is not unique", "nonunique-builtin": "is not unique", "syntax-garbage": "Expected", "syntax-drop": "Expected"}
 AT_RE = re.compile(r'"([^"]+)" of class "Def" at \((\d+), (\d+)\)')
 
 
@@ -114,7 +132,7 @@ def expected_loc(case, site):
     w = case["world"]
     f = w["files"][site["file"]]
     line, col = L.linecol(f.seen, site["pos"])
-    return (None if w["string"] else f.name, line, col)
+    return (L.file_name_of(w, f), line, col)
 
 
 def oracle(case, o):
@@ -159,7 +177,7 @@ def impl_canon(case, o):
 
 def describe(case):
     w = case["world"]
-    return {"kind": case["kind"], "string": w["string"], "files": {f.name: f.raw for f in w["files"]},
+    return {"kind": case["kind"], "string": w["string"], "files": {f.name: f.raw for f in w["files"]}, "payload": L.world_payload(w),
             "sites": [{"file": w["files"][s["file"]].name, "offset": s["pos"], "name": s.get("name")} for s in case["sites"]],
             "expected": [list(expected_loc(case, s)) for s in case["sites"]]}
 
@@ -180,7 +198,7 @@ def corpus_case(j):
 def build_cases(chk):
     n = 1200 if chk.thorough else 180
     cases = [corpus_case(j) for _, j in L.corpus_files("C28")]      # corpus first
-    fixed = ["unresolvable", "nonunique-import", "nonunique-local", "unknown", "syntax-garbage", "syntax-drop"]
+    fixed = ["unresolvable", "nonunique-import", "nonunique-local", "nonunique-builtin", "unknown", "syntax-garbage", "syntax-drop"]
     for i, k in enumerate(fixed * 2):       # every kind is always present
         cases.append(gen_case(chk.rng.split("fixed%d" % i), k))
     for i in range(n):
@@ -214,24 +232,42 @@ def run(chk):
     chk.prove([loc_tr.translate])
     cases = build_cases(chk)
     payloads = [dict(L.world_payload(c["world"])) for c in cases]
+    for c, p in zip(cases, payloads):
+        if c["kind"].startswith("syntax"):
+            p["peg_text"] = c["world"]["files"][c["sites"][0]["file"]].seen
     chunks = [list(range(len(cases)))[i::core.NPROC] for i in range(core.NPROC)]
     chunks = [c for c in chunks if c]
     texts = linecol_texts(chk)
+    disagreements, failures = [], []
     outs = core.run_impl_parallel("c28", [{"cases": [payloads[i] for i in ch]} for ch in chunks] + [{"linecol_texts": texts}])
     res = {}
     for ch, o in zip(chunks, outs):
         for i, x in zip(ch, o):
             res[i] = x
-    vals, errs = core.coq_eval("C28", L.IMPORTS, [coq_case(c) for c in cases] + ["show_lcs %s %d" % (L.coq_txt(t), len(t) + 1) for t in texts])
-    lc_vals = vals[len(cases):]
+    import pegdump
+    peg_cases = [i for i, c in enumerate(cases) if c["kind"].startswith("syntax") and res[i].get("peg_table") is not None]
+    dumps = {json.dumps(res[i]["peg_dump"], sort_keys=True) for i in peg_cases}
+    defs = ""
+    if len(dumps) == 1:
+        dj = json.loads(dumps.pop())
+        defs = "Definition gLOC : grammar := %s.\nDefinition cLOC : config := %s." % (pegdump.coq_grammar(dj), pegdump.coq_config(dj))
+    else:
+        peg_cases = []
+    exprs = ([coq_case(c) for c in cases] + ["show_lcs %s %d" % (L.coq_txt(t), len(t) + 1) for t in texts]
+             + [peg_expr(cases[i], res[i]["peg_table"]) for i in peg_cases])
+    vals, errs = core.coq_eval("C28", L.IMPORTS, exprs, defs=defs)
+    peg_vals = dict(zip(peg_cases, vals[len(cases) + len(texts):]))
+    lc_vals = vals[len(cases):len(cases) + len(texts)]
     vals = vals[:len(cases)]
-    disagreements, failures = [], []
+    n_syntax = sum(1 for c in cases if c["kind"].startswith("syntax"))
+    if len(peg_cases) != n_syntax:
+        disagreements.append({"case": "parser model dump", "model": "dumped %d of %d syntax cases: %s" % (
+            len(peg_cases), n_syntax, [res[i].get("peg_unsupported") for i, c in enumerate(cases) if c["kind"].startswith("syntax")][:2])})
     if errs:
         disagreements.append({"case": "coq evaluation", "model": errs[:2]})
     for i, (c, mv) in enumerate(zip(cases, vals)):
         o = res[i]
         w = c["world"]
-        multi = len(w["files"]) > 1
         chk.count(json.dumps([c["kind"], [f.raw for f in w["files"]], c["sites"]], default=str),
                   nontrivial=c["kind"] != "valid" and any(L.linecol(w["files"][s["file"]].seen, s["pos"])[0] > 1 for s in c["sites"]))
         chk.stat("kind=" + c["kind"])
@@ -241,6 +277,10 @@ def run(chk):
         ic = impl_canon(c, o)
         if mv is not None and ic != mv:
             disagreements.append({"case": describe(c), "impl": o, "model": mv, "impl_canon": ic})
+        if i in peg_vals:
+            chk.stat("syntax error position computed by the interpreter model")
+            if peg_vals[i] is not None and peg_vals[i] != ic:
+                disagreements.append({"case": describe(c), "impl": o, "model (Peg.run + syntax_error)": peg_vals[i], "impl_canon": ic})
         bad = oracle(c, o)
         if bad:
             failures.append({"case": describe(c), "impl": o, "model": mv, "what": bad, "tags": tags_of(c, o)})
@@ -266,7 +306,7 @@ def replay(rep):
     if "files" not in c:
         return 0
     names = list(c["files"])
-    payload = {"grammar": L.GRAMMAR, "string": c["string"], "files": [{"name": n, "raw": c["files"][n]} for n in names]}
+    payload = c.get("payload") or {"grammar": L.GRAMMAR, "string": c["string"], "files": [{"name": n, "raw": c["files"][n]} for n in names]}
     out = core.run_impl("c28", {"cases": [payload]})[0]
     print("implementation now:", json.dumps(out, default=str))
     print("expected location(s):", c.get("expected"))
